@@ -27,7 +27,8 @@ Lines == { [k |-> "A"], [k |-> "X"], [k |-> "blank"],
            [k |-> "B", len |-> 34, sec |-> 10, ok |-> TRUE],
            [k |-> "B", len |-> 37, sec |-> 20, ok |-> TRUE],
            [k |-> "B", len |-> 39, sec |-> 5, ok |-> TRUE],
-           [k |-> "B", len |-> 40, sec |-> 43200, ok |-> FALSE] }
+           [k |-> "B", len |-> 40, sec |-> 43200, ok |-> FALSE],           \* rendered with an invalid latitude field
+           [k |-> "B", len |-> 35, sec |-> 43201, ok |-> FALSE] }          \* rendered with an invalid altitude field (late error)
          \cup (IF Rich THEN { [k |-> "I", n |-> 3, ents |-> <<<<36, 36, "TDS">>, <<37, 38, "LAD">>, <<39, 40, "LOD">>>>],
                               [k |-> "I", n |-> 1, ents |-> <<<<36, 99, "TDS">>>>],
                               [k |-> "HDTE", dd |-> 29, mm |-> 2, yy |-> 0, short |-> FALSE],
